@@ -166,24 +166,25 @@ def run(ctx):
     ctx.check(ok and not others, 'Q2', 'IkeSa.peer_addr is the address given at construction and is never reassigned',
               key=('Q2', 'peer-addr'), site=ctx.site(ik, ik.node))
     dm = ctx.func('ikesacontroller.IkeSaController.dispatch_message')
-    ctors = [c for c in calls_in(dm.node) if callee_name(c) == 'IkeSa']
+    from .. import tq as _tq
+    from ..sval import strip_ids as _strip
+    DMV = ctx.sval(dm)
+    ctors = DMV.calls_to(callee='new ikesa.IkeSa')
     ctx.floor('Q2 responder IkeSa construction', len(ctors), 1)
     for c in ctors:
-        b = kwargs_of(c, target=ik)
-        ctx.check(src(b.get('peer_addr')) == 'ip_address(%s)' % dm.call_params()[2], 'Q2',
+        ctx.check(_strip(c.args.get('peer_addr', ('undef',))) == _strip(DMV.expr('ip_address(%s)' % dm.call_params()[2])), 'Q2',
                   'the responder IKE_SA is bound to the source address of the datagram', key=('Q2', 'peer-addr-arg'),
-                  site=ctx.site(dm, c))
+                  site=ctx.site(dm, c.node))
     ml = ctx.func('ikesacontroller.IkeSaController.main_loop')
-    dcalls = [c for c in calls_in(ml.node) if callee_name(c) == 'dispatch_message']
-    ok = False
+    MLV = ctx.sval(ml)
+    dcalls = MLV.calls_to(qual='ikesacontroller.IkeSaController.dispatch_message')
+    ok = bool(dcalls)
     for c in dcalls:
-        if len(c.args) == 3 and isinstance(c.args[2], ast.Subscript):
-            nm = src(c.args[2].value)
-            for n in walk_no_nested(ml.node):
-                if isinstance(n, ast.Assign) and isinstance(n.targets[0], ast.Tuple) and len(n.targets[0].elts) == 2 \
-                        and src(n.targets[0].elts[1]) == nm and isinstance(n.value, ast.Call) and callee_name(n.value) == 'recvfrom':
-                    ok = isinstance(c.args[2].slice, ast.Constant) and c.args[2].slice.value == 0
-    ctx.check(ok, 'Q2', 'dispatch_message receives the host part of recvfrom()\'s source address', key=('Q2', 'recvfrom-addr'),
+        a = c.args.get(dm.call_params()[2], ('undef',))
+        # recvfrom(..)[1][0]: the host part of the source address
+        ok = ok and a[0] == 'index' and a[2] == ('const', 'int', 0) and a[1][0] == 'index' and a[1][2] == ('const', 'int', 1) \
+            and _tq.is_call(a[1][1], 'method.recvfrom') and c.args.get(dm.call_params()[0]) == ('index', a[1][1], ('const', 'int', 0))
+    ctx.check(ok, 'Q2', 'dispatch_message receives the host part of recvfrom()\'s source address (and that datagram)', key=('Q2', 'recvfrom-addr'),
               site=ctx.site(ml, ml.node))
 
     # ---------------------------------------------------------------- Q3
